@@ -582,6 +582,14 @@ class C02Order(Oracle):
                 last_ws_ids.add(lid)
             else:
                 break
+        # the engine's parser attaches whitespace at the physical end of the method to the scope of the last instruction,
+        # whatever its indentation. When that instruction sits in a Watch / Alarm / Macro body, the whitespace is the end of
+        # that body - which runs (again) with the body - and not the end of the main scope: outside the clause as checked
+        by_id = {x.id: x for x in self.tree.walk()}
+        last_instr = next((by_id.get(lid) for lid, content in reversed(self.plan["method"])
+                           if content.strip() != "" and not content.strip().startswith("#")), None)
+        if last_instr is not None and any(a.kind in ("Watch", "Alarm", "Macro") for a in [last_instr] + list(last_instr.ancestors())):
+            last_ws_ids = set()
         for n in self.tree.walk():
             trailing = [c for c in n.children if c.id in last_ws_ids]     # whitespace at the physical end of the method
             has_instruction = any(not x.is_ws for x in self.tree.walk() if x.kind != "root")
